@@ -142,11 +142,74 @@ pub fn probe_r5() -> SimCampaign {
     }
 }
 
+/// Witness 1 connects late, into a slab slot (and next to filter logs) that adversaries'
+/// finished connections have used: whatever those connections left behind in the router
+/// (parked requests of shared or plain subscriptions, scheduler entries, cached batches) must
+/// not act on it. The late *signals* of finished connections are R5's business and are kept
+/// out of this campaign (no Zombie events, forged ids only beyond the slab).
+fn late_shape(h: Hist) -> Hist {
+    let mut h = witness_shape(h);
+    let max_conn = h.cfg.max_conn;
+    let mut seen_connect = false;
+    h.ops.retain_mut(|op| match op {
+        Op::Zombie { .. } => false,
+        Op::Stale { id, .. } => {
+            if *id <= max_conn + 1 {
+                *id += max_conn + 2;
+            }
+            true
+        }
+        Op::Connect { c: 1, .. } => {
+            seen_connect = true;
+            false
+        }
+        // the witnesses hold plain subscriptions only (a group's choice of member is not theirs)
+        Op::Subscribe { c, filters, .. } if *c < 2 => {
+            filters.retain(|f| !f.0.starts_with("$share/"));
+            !filters.is_empty()
+        }
+        Op::Unsubscribe { c, filters, .. } if *c < 2 => {
+            filters.retain(|f| !f.starts_with("$share/"));
+            !filters.is_empty()
+        }
+        _ => true,
+    });
+    if seen_connect {
+        let n = h.ops.len();
+        let at = (n / 3).max(4.min(n)).min(n);
+        h.ops.insert(at, Op::Connect { c: 1, clean: true, will: None, alias_max: 0 });
+        h.ops.insert(at + 1, Op::Turn { n: 1 });
+    }
+    h
+}
+
+pub fn late_campaign() -> SimCampaign {
+    let mut c = main_campaign();
+    c.name = "late_witness";
+    c.gen.w_shared_sub = 5;
+    c.gen.w_zombie = 0;
+    c.gen.w_reconnect = 12;
+    c.gen.w_droplink = 6;
+    c.quick = 12000;
+    c.thorough = 240000;
+    c.shape = Some(late_shape);
+    c.nontrivial = |s, _| {
+        if !s.slot_reused_after_abnormal_end && s.router_closed == 0 {
+            return None;
+        }
+        if s.witness_forwards == 0 {
+            return None;
+        }
+        Some(format!("closed={} reused={} groups={}", s.router_closed.min(3), s.slot_reused_after_abnormal_end, s.group_membership_changes > 0))
+    };
+    c
+}
+
 pub fn plan(_tier: Tier) -> Plan {
     Plan {
-        campaigns: vec![Box::new(main_campaign()), Box::new(probe_r5())],
+        campaigns: vec![Box::new(main_campaign()), Box::new(late_campaign()), Box::new(probe_r5())],
         enumerators: vec![],
-        rule: "Histories with a witness pair (clients 0 and 1: connected first, never misbehaving, draining and acknowledging in order, publishing and subscribing on the same topics as everybody else) and 1-3 adversaries drawing from the C03 alphabet: protocol violations, unsolicited acks, abrupt link failures, reconnect storms and takeovers under their own ids, never draining / never acknowledging, stale and forged router events, late events of their finished connections before or after another adversary reuses the slab slot. Oracle: the C01 delivery clauses, the C06 ack clauses and the C09 window clauses restricted to the witnesses, exact at every drain and complete at every idle point; both witness connections stay registered (checked after every router turn); slab alignment. Adversaries' valid publishes are part of the reference model (they must be delivered to the witnesses), their connection state follows the router when the model cannot predict it. Non-trivial: >=1 adversary connection closed by the broker or >=1 stale event, while the witnesses received forwards.".into(),
+        rule: "Histories with a witness pair (clients 0 and 1: connected first, never misbehaving, draining and acknowledging in order, publishing and subscribing on the same topics as everybody else) and 1-3 adversaries drawing from the C03 alphabet: protocol violations, unsolicited acks, abrupt link failures, reconnect storms and takeovers under their own ids, never draining / never acknowledging, stale and forged router events, late events of their finished connections before or after another adversary reuses the slab slot. Oracle: the C01 delivery clauses, the C06 ack clauses and the C09 window clauses restricted to the witnesses, exact at every drain and complete at every idle point; both witness connections stay registered (checked after every router turn); slab alignment. Second campaign (late_witness): adversaries also hold shared subscriptions and reconnect more often, witness 1 connects only after a third of the history, into a slab slot and next to filter logs that finished connections have used (late signals of those connections are R5's region and are left out there). Adversaries' valid publishes are part of the reference model (they must be delivered to the witnesses), their connection state follows the router when the model cannot predict it. Non-trivial: >=1 adversary connection closed by the broker or >=1 stale event, while the witnesses received forwards.".into(),
         assumptions: vec![
             "Known finding R5 (connection ids are recycled slab keys: a late Disconnect/Ready of a finished connection acts on the new occupant of the slot) is kept out of the main campaign by construction: the witnesses connect first and never reconnect, so their slots are never recycled; it is probed separately".into(),
         ],
